@@ -1,7 +1,7 @@
 """Translator unit `tsyncskel` -> Gen/TsyncSkel.lean (C03, C04, C05).
 
 Per guarded function of include/iora/network/transport_impl.hpp (the three engine-callback handlers, receiveSync,
-setReadMode, connectSync, connectSyncCancellable, ParkGuard/FlushGuard, setTeardownFence, teardownWaitOut, performTeardown,
+setReadMode, connectSync, connectSyncCancellable, receiveSyncCancellable, ParkGuard/FlushGuard, setTeardownFence, teardownWaitOut, performTeardown,
 ~Transport, stop) the ordered list of synchronisation-relevant events in textual order
 
     lock m / unlock m / wait cv / notify_one cv / notify_all cv / read v / write v / inc c / dec c / call f / guard g / cmp … / return …
@@ -61,6 +61,7 @@ TOK = re.compile(r"""
  | (?P<brk>\bbreak\s*;)
  | (?P<subint>\bsubInterval\s*=\s*std::chrono::milliseconds\s*\{\s*(?P<subv>\d+)\s*\})
  | (?P<csync>(?<![\w:])connectSync\s*\()
+ | (?P<rsync>(?<![\w:])receiveSync\s*\()
  | (?P<tokc>\btoken\s*\.\s*isCancelled\s*\(\s*\))
  | (?P<open>\{) | (?P<close>\})
 """, re.X)
@@ -282,6 +283,8 @@ def skeleton(body, where, mutex_alias=None, track_else=False):
             ev.append(("const", "subInterval=" + m.group("subv"), h))
         elif m.group("csync"):
             ev.append(("call", "connectSync", h))
+        elif m.group("rsync"):
+            ev.append(("call", "receiveSync", h))
         elif m.group("tokc"):
             ev.append(("read", "token.isCancelled", h))
     for g in guards:
@@ -537,6 +540,100 @@ def arg_rows(src):
         raise TranslateError("connectSyncCancellable: loop condition not found")
     row.append(("expr", "while", _norm(m.group(1))))
     rows.append(("connectSyncCancellable.args", row))
+    # C03: what receiveSync waits for, and the loop of receiveSyncCancellable (every statement that decides what is returned)
+    rs = blank_strings(method_body(src, r"\bTransport::receiveSync\s*\(", "Transport::receiveSync"))
+    row = []
+    m = re.search(r"const\s+auto\s+deadline\s*=\s*([^;]+);", rs)
+    if not m:
+        raise TranslateError("receiveSync: deadline not found")
+    row.append(("expr", "deadline", _norm(m.group(1))))
+    waits = _call_args(rs, r"buf->cv\s*\.\s*wait_until")
+    if len(waits) != 1:
+        raise TranslateError("receiveSync: expected exactly one buf->cv.wait_until, found %d" % len(waits))
+    wa = _split_top(waits[0])
+    row.append(("expr", "wait_until.lock", _norm(wa[0])))
+    row.append(("expr", "wait_until.deadline", _norm(wa[1])))
+    m = re.search(r"const\s+bool\s+signalled\s*=\s*buf->cv\s*\.\s*wait_until", rs)
+    if not m:
+        raise TranslateError("receiveSync: `const bool signalled = buf->cv.wait_until(…)` not found")
+    m = re.search(r"if\s*\(\s*!\s*signalled\s*\)\s*\{\s*return\s+ReceiveResult::err\s*\(\s*TransportErrorInfo\s*\{\s*TransportError::(\w+)", rs)
+    if not m:
+        raise TranslateError("receiveSync: the `if (!signalled) { return err(…) }` branch was not found")
+    row.append(("expr", "not-signalled", "return:" + m.group(1)))
+    rows.append(("receiveSync.args", row))
+    rc = blank_strings(method_body(src, r"\bITransport::receiveSyncCancellable\s*\(", "ITransport::receiveSyncCancellable"))
+    row = []
+    for name, rx in (("subInterval", r"subInterval\s*=\s*([^;]+);"), ("deadline", r"auto\s+deadline\s*=\s*([^;]+);"),
+                     ("remaining", r"auto\s+remaining\s*=\s*([^;]+);"), ("subTimeout", r"auto\s+subTimeout\s*=\s*([^;]+);"),
+                     ("result", r"auto\s+result\s*=\s*([^;]+);")):
+        hits = re.findall(rx, rc)
+        if len(hits) != 1:
+            raise TranslateError("receiveSyncCancellable: expected exactly one `%s = …;`, found %d" % (name, len(hits)))
+        row.append(("expr", name, _norm(hits[0])))
+    m = re.search(r"while\s*\(([^{]*)\)\s*\{", rc)
+    if not m:
+        raise TranslateError("receiveSyncCancellable: loop condition not found")
+    row.append(("expr", "while", _norm(m.group(1))))
+    # every `if (cond) { return X; }` / `if (cond) { break; }` of the function, in textual order
+    for m in re.finditer(r"if\s*\(((?:[^(){}]|\([^()]*\))*)\)\s*\{\s*(return\s+[^;]*;|break\s*;)(?:\s*//[^\n]*)?\s*\}", rc):
+        act = _norm(m.group(2))
+        mm = re.match(r"returnReceiveResult::err\(TransportErrorInfo\{TransportError::(\w+)", act)
+        row.append(("expr", "if:" + _norm(m.group(1)), ("return:err:" + mm.group(1)) if mm else act.rstrip(";")))
+    n_ret = len(re.findall(r"\breturn\b", rc))
+    row.append(("expr", "returns", str(n_ret)))
+    m = re.search(r"\}\s*return\s+ReceiveResult::err\s*\(\s*TransportErrorInfo\s*\{\s*TransportError::(\w+)[^;]*;\s*$", rc.strip())
+    if not m:
+        raise TranslateError("receiveSyncCancellable: the final `return ReceiveResult::err(…)` after the loop was not found")
+    row.append(("expr", "after-loop", "return:err:" + m.group(1)))
+    rows.append(("receiveSyncCancellable.args", row))
+    # T8: step 6 of the onClose handler erases the session's readModes entry exactly once and UNCONDITIONALLY: at the brace depth of
+    # the critical section itself (depth 0 relative to its lock_guard), i.e. under no `if`/`else`/loop
+    impl = struct_body(src, "Transport::Impl")
+    oc = blank_strings(lambda_body(impl, "cbs.onClose"))
+    locks = [m.start() for m in re.finditer(r"std::lock_guard\s*<\s*std::mutex\s*>\s*\w+\s*\(\s*syncMutex\s*\)", oc)]
+    if not locks:
+        raise TranslateError("onClose handler: no lock_guard on syncMutex found")
+
+    def depth_at(pos):
+        return oc[:pos].count("{") - oc[:pos].count("}")
+    base = depth_at(locks[-1])
+    er = [m.start() for m in re.finditer(r"\breadModes\s*\.\s*erase\s*\(\s*sid\s*\)", oc)]
+    row = [("expr", "readModes.erase.count", str(len(er)))]
+    for pos in er:
+        row.append(("expr", "readModes.erase.depth", str(depth_at(pos) - base) if pos > locks[-1] else "before-step6"))
+    rows.append(("onClose.step6", row))
+    # FC03b: a timeout too large for clock arithmetic is saturated before its first use (1 = yes)
+    clamp = r"timeout\s*=\s*detail::clampSyncTimeout\s*\(\s*timeout\s*\)\s*;"
+    row = []
+
+    def first(rx, text):
+        m = re.search(rx, text)
+        return m.start() if m else None
+    for name, body, use in (("connectSync", cs, r"\.\s*wait_for\s*\("), ("connectSyncCancellable", cc, r"auto\s+deadline\s*="),
+                            ("receiveSyncCancellable", rc, r"auto\s+deadline\s*=")):
+        a, b = first(clamp, body), first(use, body)
+        row.append(("expr", name, "1" if a is not None and b is not None and a < b and len(re.findall(clamp, body)) == 1 else "0"))
+    m = re.search(r"const\s+auto\s+deadline\s*=\s*([^;]+);", rs)
+    row.append(("expr", "receiveSync", "1" if m and _norm(m.group(1)) == "std::chrono::steady_clock::now()+detail::clampSyncTimeout(timeout)" else "0"))
+    m = re.search(r"inline\s+std::chrono::milliseconds\s+clampSyncTimeout\s*\(\s*std::chrono::milliseconds\s+timeout\s*\)\s*\{(.*?)\n\}", src, re.S)
+    if m:
+        body = blank_strings(re.sub(r"//[^\n]*", "", m.group(1)))
+        row.append(("expr", "clampSyncTimeout", _norm(body)))
+    else:
+        row.append(("expr", "clampSyncTimeout", "-"))
+    rows.append(("syncTimeoutClamp", row))
+    # FC02a / T8: the FIRST critical section of setReadMode returns at once (`return true`, vacuous) for a closed tombstone, unconditionally - at the brace
+    # depth of the section itself - and before it reads or writes readModes (1 = yes)
+    sm = blank_strings(method_body(src, r"\bTransport::setReadMode\s*\(", "Transport::setReadMode"))
+    lk = re.search(r"std::lock_guard\s*<\s*std::mutex\s*>\s*\w+\s*\(\s*_impl->syncMutex\s*\)\s*;", sm)
+    if not lk:
+        raise TranslateError("setReadMode: no lock_guard on _impl->syncMutex found")
+    g = re.search(r"auto\s+(\w+)\s*=\s*_impl->receiveBuffers\.find\(\s*sid\s*\)\s*;\s*if\s*\(\s*(\w+)\s*!=\s*_impl->receiveBuffers\.end\(\s*\)\s*&&\s*"
+                  r"(\w+)->second->closed\s*\)\s*\{\s*return\s+true\s*;\s*\}", sm)
+    rm = re.search(r"\breadModes\b", sm)
+    good = bool(g and rm and g.group(1) == g.group(2) == g.group(3) and lk.end() <= g.start() and g.end() <= rm.start()
+                and sm[:g.start()].count("{") - sm[:g.start()].count("}") == sm[:lk.start()].count("{") - sm[:lk.start()].count("}"))
+    rows.append(("setReadMode.tombGuard", [("expr", "closed-tombstone-returns-true-first", "1" if good else "0")]))
     return rows
 
 
@@ -563,6 +660,7 @@ def gen(repo):
     rows.append(("receiveSync", skeleton(method_body(src, r"\bTransport::receiveSync\s*\(", "Transport::receiveSync"), "receiveSync")))
     rows.append(("setReadMode", skeleton(method_body(src, r"\bTransport::setReadMode\s*\(", "Transport::setReadMode"), "setReadMode", track_else=True)))
     rows.append(("connectSyncCancellable", skeleton(method_body(src, r"\bITransport::connectSyncCancellable\s*\(", "ITransport::connectSyncCancellable"), "connectSyncCancellable")))
+    rows.append(("receiveSyncCancellable", skeleton(method_body(src, r"\bITransport::receiveSyncCancellable\s*\(", "ITransport::receiveSyncCancellable"), "receiveSyncCancellable")))
     # every other function of the file that takes syncMutex must be one the models know to be single-shot
     known_single = {"getReadMode"}
     for m in re.finditer(r"\bTransport::(\w+)\s*\(", src):
